@@ -39,11 +39,14 @@ func (ir *inputReader) getContents(offset *int64, line *int) string {
 	_, _ = ir.rs.Seek(0, io.SeekStart)
 	const bufSize = 16 * 1024
 	var buf bytes.Buffer // do not use strings.Builder because we need to Reset
+	var cr bool          // the skipped part ends with a CR whose LF may follow
 	for offset != nil && *offset > bufSize*3/4 {
 		n, err := io.Copy(&buf,
 			io.LimitReader(ir.rs, min(bufSize, *offset-bufSize/4)))
 		*offset -= n
-		*line += bytes.Count(buf.Bytes(), []byte{'\n'})
+		var cnt int
+		cnt, cr = countNewlines(buf.Bytes(), cr)
+		*line += cnt
 		buf.Reset()
 		if err != nil || n == 0 {
 			break
@@ -56,7 +59,30 @@ func (ir *inputReader) getContents(offset *int64, line *int) string {
 		r = io.LimitReader(ir.rs, bufSize)
 	}
 	_, _ = io.Copy(&buf, r)
+	if cr && !bytes.HasPrefix(buf.Bytes(), []byte{'\n'}) {
+		*line++ // a lone CR ended the skipped part
+	}
 	return buf.String()
+}
+
+// countNewlines counts the line terminators (LF, CRLF and lone CR, as in
+// getLineByOffset) that end within b. A CR at the very end of b is not
+// counted but reported, because its LF may follow; cr tells that the bytes
+// before b ended that way.
+func countNewlines(b []byte, cr bool) (int, bool) {
+	if len(b) == 0 {
+		return 0, cr
+	}
+	var n int
+	if cr && b[0] != '\n' {
+		n++
+	}
+	for i, c := range b {
+		if c == '\n' || c == '\r' && i+1 < len(b) && b[i+1] != '\n' {
+			n++
+		}
+	}
+	return n, b[len(b)-1] == '\r'
 }
 
 type inputIter interface {
@@ -110,7 +136,8 @@ func (i *jsonInputIter) Next() (any, bool) {
 		// discard only what the decoder has consumed; it may have read ahead
 		if n := int(i.inputOffset() - i.offset); 0 < n && n <= buf.Len() {
 			i.offset += int64(n)
-			i.line += bytes.Count(buf.Next(n), []byte{'\n'})
+			cnt, _ := countNewlines(buf.Next(n), false) // a value does not end with CR
+			i.line += cnt
 		}
 	}
 	return v, true
